@@ -88,8 +88,31 @@ func (c *ClusterInfo) snapshotQueueResourceUsage() (*queue_info.ClusterUsage, er
 // UpdateQueueHierarchy iterates over a map containing multiple levels of queue hierarchies, and updates queues with
 // child queues where relevant
 func UpdateQueueHierarchy(queues map[common_info.QueueID]*queue_info.QueueInfo) {
+	removeQueueCycles(queues)
 	updateQueueChildren(queues)
 	cleanQueueOrphans(queues)
+}
+
+// removeQueueCycles deletes queues whose parent chain never reaches a top queue (parent cycles,
+// including a queue that is its own parent). Walking such a chain never terminates, and nothing
+// validates the parent graph of Queue objects. Descendants of the deleted queues become orphans
+// and are removed by cleanQueueOrphans.
+func removeQueueCycles(queues map[common_info.QueueID]*queue_info.QueueInfo) {
+	for queueId := range queues {
+		current, steps := queueId, 0
+		for steps <= len(queues) {
+			queue, found := queues[current]
+			if !found || queue.ParentQueue == "" {
+				break
+			}
+			current = queue.ParentQueue
+			steps++
+		}
+		if steps > len(queues) {
+			log.InfraLogger.V(2).Warnf("Queue %s is part of (or below) a parent cycle, deleting it", queueId)
+			delete(queues, queueId)
+		}
+	}
 }
 
 func updateQueueChildren(queues map[common_info.QueueID]*queue_info.QueueInfo) {
